@@ -52,6 +52,10 @@ def graphs(tier):
             for abp in ((False, True) if tier != 'quick' else (True,)):
                 yield 'twotrees', cxref.Graph({'p': E(abstract=abp, expr=sub(xp, 'p')), 'p1': E(['p']), 'p2': E(['p']), 'q': E(expr=sub(xq, 'q')), 'q1': E(['q']), 'q2': E(['q']),
                                                'm': E(['p1', 'q2'])})
+    # three branches under the root, every branch a supertype itself (an OR choice per branch for the matcher): r > a(a1,a2), b(b1), c(c1)
+    for xr in (exprs3('a', 'b', 'c') if tier != 'quick' else [None, ('ANDOR', ['a', 'b', 'c']), ('ONEOF', ['a', 'b', 'c']), ('AND', ['a', 'b', 'c']), ('ANDOR', [('ONEOF', ['a', 'b']), 'c'])]):
+        for xa in (None, ('ONEOF', ['a1', 'a2'])):
+            yield 'tree3x', cxref.Graph({'r': E(expr=xr), 'a': E(['r'], expr=xa), 'b': E(['r']), 'c': E(['r']), 'a1': E(['a']), 'a2': E(['a']), 'b1': E(['b']), 'c1': E(['c'])})
     yield 'abstower', cxref.Graph({'r': E(abstract=True), 'a': E(['r'], abstract=True), 'a1': E(['a'])})
     yield 'abstower2', cxref.Graph({'r': E(abstract=True, expr=('ONEOF', ['a', 'b'])), 'a': E(['r'], abstract=True), 'b': E(['r']), 'a1': E(['a'])})
     if tier == 'thorough':
@@ -260,7 +264,7 @@ def main():
     if args.replay:
         sys.exit(replay(args.replay))
     chk = common.Check(PID, args.tier, deadline_s=args.deadline)
-    chk.rule = ('programs: inheritance graphs of 3-5 entities (stars with 2 and 3 subtypes, chains, two-level trees, diamonds, two roots, abstract towers; thorough adds 6-entity trees and diamonds) '
+    chk.rule = ('programs: inheritance graphs of 3-5 entities (stars with 2 and 3 subtypes, chains, two-level trees, diamonds, two roots, a subtype of two separately constrained hierarchies, three-branch two-level trees, abstract towers; thorough adds 6-entity trees and diamonds) '
                 'with every ONEOF/AND/ANDOR constraint tree of depth <= 2 over the direct subtypes, every subset of subtypes left unmentioned, +-ABSTRACT; packed 60 graphs per schema library; '
                 'inputs: ALL 2^n-1 non-empty subsets of the entity names of each graph in every part order (n<=3; thorough n<=4; sorted+reversed beyond); state = (graph, subset, order), '
                 'transition = one STEPcomplex construction on the sanitizer build; oracle = cxref.legal for every subset that is connected or lacks a supertype of one of its members')
